@@ -355,12 +355,14 @@ func (s *Sim) runBody() {
 			} else if p.Shape == "starve" && s.chance(0.05) {
 				s.pickStallTarget()
 			}
-			d, ok := s.next(s.quietReset != nil || s.quietRoot != nil)
+			d, ok := s.next(s.quietReset != nil || s.quietRoot != nil || s.quietEv != nil)
 			if !ok {
-				if s.quietReset != nil || s.quietRoot != nil {
-					// the quiet window after a system reset (or a lone subscribe) has drained
+				if s.quietReset != nil || s.quietRoot != nil || s.quietEv != nil {
+					// the quiet window after a system reset (or a lone subscribe, or
+					// a lone event) has drained
 					s.quietReset = nil
 					s.quietRoot = nil
+					s.quietEv = nil
 					continue
 				}
 				break
@@ -380,6 +382,7 @@ func (s *Sim) runBody() {
 	s.stallLeft = 0
 	s.quietReset = nil
 	s.quietRoot = nil
+	s.quietEv = nil
 	s.finish()
 }
 
@@ -398,15 +401,24 @@ func (s *Sim) step(d Decision) bool {
 		// an external action ends the quiet window after a system reset
 		s.quietReset = nil
 		s.quietRoot = nil
+		s.quietEv = nil
 	}
 	if d.K == "dlv" && strings.HasPrefix(d.A, "bag:") && !strings.HasPrefix(d.A, "bag:reply:") {
 		// so does another reset, or a token event, that was still on its way
 		s.quietReset = nil
 		s.quietRoot = nil
+		s.quietEv = nil
+	}
+	var evWin *quietEvent
+	if d.K == "dlv" && strings.HasPrefix(d.A, "fifo:") && s.Cfg.Gw.ReferenceThrottle > 0 && s.Cfg.P.fault("quietroot") && s.quietReset == nil && s.quietRoot == nil && s.quietEv == nil {
+		evWin = s.loneEvent(d.A[5:])
 	}
 	quietBefore := d.K == "cli" && s.Cfg.Gw.ReferenceThrottle > 0 && s.Cfg.P.fault("quietroot") && s.numParked() == 0 && s.allDelivered() && s.tr.bagEmpty()
 	s.record(d)
 	ok := s.execute(d)
+	if ok && evWin != nil {
+		s.quietEv = evWin
+	}
 	if ok && quietBefore {
 		// a lone subscribe at a quiet moment: every get request that follows is
 		// made while following its references (C19, reference throttle)
